@@ -1,7 +1,7 @@
 #!/bin/bash
-# usage: confirm_seed.sh <PROP> <N>  -- re-confirms an agent-made change in its scratch worktree and archives it under /verif/seeded/
+# usage: [MUTROOT=/tmp/mut2] confirm_seed.sh <PROP> <N> [<archive number>]  -- re-confirms an agent-made change in its scratch worktree and archives it under /verif/seeded/
 set -u
-P="$1"; N="$2"; W=/tmp/mut/$P; OUT=$W/_out
+P="$1"; N="$2"; A="${3:-$2}"; W=${MUTROOT:-/tmp/mut}/$P; OUT=$W/_out
 cd "$W" || exit 2
 git checkout -q -- . 
 cp "$OUT/demo_$N.py" "$W/demo_$N.py"
@@ -9,15 +9,15 @@ clean=$(PYTHONPATH=$W PYTHONHASHSEED=0 timeout 300 /venv/bin/python -W ignore de
 PYTHONPATH=$W PYTHONHASHSEED=0 timeout 300 /venv/bin/python -W ignore demo_$N.py >/dev/null 2>&1; clean_rc=$?
 git apply "$OUT/patch_$N.diff" || { echo "patch does not apply"; exit 3; }
 tests=$(env -u WEB_MONITORING_DIFF_VERIF /venv/bin/python -m pytest -q -p no:cacheprovider --timeout=900 --continue-on-collection-errors 2>&1 | tail -1)
-PYTHONPATH=$W PYTHONHASHSEED=0 timeout 300 /venv/bin/python -W ignore demo_$N.py >/tmp/mut/demo_out.txt 2>&1; mut_rc=$?
+PYTHONPATH=$W PYTHONHASHSEED=0 timeout 300 /venv/bin/python -W ignore demo_$N.py >${MUTROOT:-/tmp/mut}/demo_out_$P.txt 2>&1; mut_rc=$?
 git checkout -q -- . ; rm -f "$W/demo_$N.py"
-echo "$P-$N: demo clean rc=$clean_rc, demo with change rc=$mut_rc, tests: $tests"
+echo "$P-$A (agent change $N): demo clean rc=$clean_rc, demo with change rc=$mut_rc, tests: $tests"
 ok=0
 if [ "$clean_rc" = "0" ] && [ "$mut_rc" = "1" ] && echo "$tests" | grep -q "81 passed"; then ok=1; fi
 if [ "$ok" = "1" ]; then
-  D=/verif/seeded/$P-$N; mkdir -p "$D"
+  D=/verif/seeded/$P-$A; mkdir -p "$D"
   cp "$OUT/patch_$N.diff" "$D/patch.diff"; cp "$OUT/demo_$N.py" "$D/demo.py"; cp "$OUT/meta_$N.json" "$D/agent_meta.json"
-  /venv/bin/python - "$P" "$N" "$tests" <<'PY'
+  /venv/bin/python - "$P" "$A" "$tests" <<'PY'
 import json,sys
 P,N,tests=sys.argv[1:4]
 a=json.load(open('/verif/seeded/%s-%s/agent_meta.json'%(P,N)))
@@ -29,5 +29,5 @@ json.dump(m,open('/verif/seeded/%s-%s/meta.json'%(P,N),'w'),indent=1)
 PY
   echo "archived $D"
 else
-  echo "NOT CONFIRMED"; tail -5 /tmp/mut/demo_out.txt
+  echo "NOT CONFIRMED"; tail -5 ${MUTROOT:-/tmp/mut}/demo_out_$P.txt
 fi
